@@ -23,6 +23,10 @@ themselves, every other character is ``%XX``.  JSON values are written in prefix
                                                     under the key of an existing one; the world handle
                                                     cleared and called again; a second WorldFromFileHandle
                                                     for the same file, stored next to the first, loaded
+    step call                                       world_handle() once more (cached world, or a new load after
+                                                    a failed one); allowed for `mode dict` too, like reload
+    cls .. raise=<n,..>                             the n-th constructor calls of the class (0-based, counted
+                                                    over the whole scenario) raise CtorError
     cls .. base=<cid>                               the class is a subclass of an earlier class (its ev= is
                                                     the complete mapping, a superset of the base's)
 
@@ -33,8 +37,9 @@ classes themselves through a WorldHandle whose transform function calls populate
 
 Observations:
     rx <group|-> <group|-> <group|->     groups of OBJECT/RESOURCE/HANDLE_STRING_REGEX.match
-    load <k> reload|load2                a further load starts (its block has the lines below again)
-    res ok | res raised <Exception>      outcome of the load
+    load <k> call|reload|load2                a further load starts (its block has the lines below again)
+    res ok | res raised <Exception> | res same-world     outcome of the load (same-world: handle() returned
+                                         the world object it had returned before, nothing else is printed)
     enabled 0|1                          dispatch_enabled of the returned world
     procs <label:C<cid>,..>              World.processors
     ents <id,..> ; ent <id> <label:C<cid>,..>       World.entities, World.get_components
@@ -179,6 +184,7 @@ class Scenario:
         self.ents = []        # [id token, [comps]]
         self.rx = []
         self.steps = []
+        self.raises = {}
         for ln in lines:
             t = ln.split()
             if not t:
@@ -191,6 +197,7 @@ class Scenario:
                 ev = None if d['ev'] == 'none' else dict(
                     p.split(':') for p in d['ev'].split(',') if p and p != '-')
                 self.classes[int(t[1])] = (t[2], int(d['prio']), ev, int(d['base']) if 'base' in d else None)
+                self.raises[int(t[1])] = [int(x) for x in d.get('raise', '-').split(',') if x not in ('-', '')]
             elif k == 'name':
                 if t[2] == 'cls':
                     self.names.append((dec(t[1]), 'cls', int(t[3])))
@@ -223,7 +230,7 @@ class Scenario:
                     self.steps.append(('clear', int(t[2])))
                 elif t[1] == 'replace':
                     self.steps.append(('replace', dec(t[2]), int(t[3])))
-                elif t[1] in ('reload', 'load2'):
+                elif t[1] in ('reload', 'load2', 'call'):
                     self.steps.append((t[1],))
                 else:
                     raise ValueError(ln)
@@ -253,6 +260,10 @@ def show_id(v):
     return '?' + type(v).__name__
 
 
+class CtorError(Exception):
+    """scripted failure of a component / processor constructor"""
+
+
 class Opaque:
     def __init__(self, oid):
         self.oid = oid
@@ -272,6 +283,8 @@ class Run:
         self.ids = {}        # id(object) -> token  (objects are kept alive in self.keep)
         self.keep = []
         self.handles = {}
+        self.ctor_calls = {}
+        self.returned = []     # worlds handle() has returned (kept alive: identity is observed)
 
     def register(self, obj, tok):
         self.ids[id(obj)] = tok
@@ -284,6 +297,10 @@ class Run:
         def __init__(self, *args, **kwargs):
             self._label = run.counter
             run.counter += 1
+            k = run.ctor_calls.get(cid, 0)
+            run.ctor_calls[cid] = k + 1
+            if k in run.sc.raises.get(cid, ()):
+                raise CtorError(f'constructor call {k} of K{cid}')
             self._args, self._kwargs = args, kwargs
 
         def make(mname):
@@ -513,6 +530,10 @@ class Run:
         except Exception as e:        # noqa
             self.obs.append('res raised ' + type(e).__name__)
             return
+        if any(world is w for w in self.returned):
+            self.obs.append('res same-world')
+            return
+        self.returned.append(world)
         self.obs.append('res ok')
         self.dump(world, handle)
         self.obs.append(f'pre {len(self.log)}')
@@ -571,6 +592,10 @@ class Run:
                     self.handles[st[2]] = value
                     self.register(value, f'H{st[2]}')
                     parent[parts[-1]] = value
+                elif st[0] == 'call':
+                    self.obs.append(f'load {k} call')
+                    self.one_load(handle, lambda: handle())
+                    k += 1
                 elif st[0] == 'reload':
                     self.obs.append(f'load {k} reload')
                     handle.clear()
